@@ -354,6 +354,8 @@ def plan(tier):
     return [
         {"kind": "enum", "name": "configuration-product", "cases": lambda: enum_cases(tier), "exhaustive": tier == "thorough"},
         {"kind": "hyp", "name": "random-configurations", "strategy": random_cases(), "examples": 150 if tier == "quick" else 2000},
+        # a second, different product delivered to the same path with its cache produced again
+        {"kind": "hyp", "name": "in-place-pairs", "strategy": common.in_place_pairs(random_cases()), "examples": 40 if tier == "quick" else 1200},
     ]
 
 
